@@ -53,23 +53,23 @@ RECURSIVE ElimFrom(_, _, _, _)
 ElimFrom(sr, M, K, j) ==
   IF j = M.n THEN K
   ELSE LET sj == Star(sr, K[<<j, j>>])
-       IN ElimFrom(sr, M, [pq \in StPairs(M) |->
-                              Add(sr, K[pq], Mul(sr, Mul(sr, K[<<pq[1], j>>], sj), K[<<j, pq[2]>>]))], j + 1)
+       IN ElimFrom(sr, M, TLCEval([pq \in StPairs(M) |->        \* (TLCEval: a lazily evaluated matrix would be
+                              Add(sr, K[pq], Mul(sr, Mul(sr, K[<<pq[1], j>>], sj), K[<<j, pq[2]>>]))]), j + 1)   \* re-evaluated 4^n times)
 RECURSIVE PivotsOK(_, _, _, _)
 PivotsOK(sr, M, K, j) ==
   IF j = M.n THEN TRUE
   ELSE StarDefined(sr, K[<<j, j>>]) /\
        LET sj == Star(sr, K[<<j, j>>])
-       IN PivotsOK(sr, M, [pq \in StPairs(M) |->
-                              Add(sr, K[pq], Mul(sr, Mul(sr, K[<<pq[1], j>>], sj), K[<<j, pq[2]>>]))], j + 1)
-EpsMatrix(sr, M) == [pq \in StPairs(M) |-> EpsW(sr, M, pq[1], pq[2])]
+       IN PivotsOK(sr, M, TLCEval([pq \in StPairs(M) |->
+                              Add(sr, K[pq], Mul(sr, Mul(sr, K[<<pq[1], j>>], sj), K[<<j, pq[2]>>]))]), j + 1)
+EpsMatrix(sr, M) == TLCEval([pq \in StPairs(M) |-> EpsW(sr, M, pq[1], pq[2])])
 EpsClosureDefined(sr, M) == PivotsOK(sr, M, EpsMatrix(sr, M), 0)
 EpsClosure(sr, M) ==
   LET K == ElimFrom(sr, M, EpsMatrix(sr, M), 0)
-  IN [pq \in StPairs(M) |-> IF pq[1] = pq[2] THEN Add(sr, One(sr), K[pq]) ELSE K[pq]]
+  IN TLCEval([pq \in StPairs(M) |-> IF pq[1] = pq[2] THEN Add(sr, One(sr), K[pq]) ELSE K[pq]])
 AWeightClosed(sr, M, s) ==
   LET ES == EpsClosure(sr, M)
-      close(v) == [q \in St(M) |-> SumSeq(sr, [p \in 1 .. M.n |-> Mul(sr, v[p - 1], ES[<<p - 1, q>>])])]
+      close(v) == TLCEval([q \in St(M) |-> SumSeq(sr, [p \in 1 .. M.n |-> Mul(sr, v[p - 1], ES[<<p - 1, q>>])])])
       v0 == close([q \in St(M) |-> WI(sr, M, q)])
       RECURSIVE Run(_, _)
       Run(v, i) == IF i > Len(s) THEN v
